@@ -139,6 +139,19 @@ def gen_A(key, op):
             for name, b in scn["secondary_backing"].items()
             if b == "dask"
         }
+    elif r < 0.40:
+        # a second lazy result of the same operation (other data, drawn parameters) computed in one graph
+        like = {k: scn["params"][k] for k in ("nodata_via", "float", "nodata_attr") if k in scn["params"]}
+        p2 = S.gen_scenario(rng, force={"op": op, "shape": (T, Y, X), "dtype": scn["cube"]["dtype"], "layout": scn["layout"], "like": like})
+        p2["chunks"] = {"y": S.composition(rng, Y), "x": S.composition(rng, X)} if rng.random() < 0.5 else scn["chunks"]
+        p2["secondary_backing"] = dict(scn["secondary_backing"]) if set(p2["secondary"]) == set(scn["secondary"]) else p2["secondary_backing"]
+        if rng.random() < 0.5:
+            # identical parameters, different data: what a too-coarse cache / task name would confuse
+            # (parameters and secondary rasters travel together: zone ids must stay < nz)
+            p2["params"] = json.loads(json.dumps(scn["params"]))
+            p2["secondary"] = json.loads(json.dumps(scn["secondary"]))
+            p2["secondary_backing"] = dict(scn["secondary_backing"])
+        scn["pair"] = p2
     cfg = runner.gen_config(rng)
     return rng, scn, cfg
 
@@ -541,6 +554,8 @@ def run_check(args):
     jobs = []
     if only & {"A", "B", "R"}:
         for op in S.OPS:
+            if getattr(args, "ops", None) and op not in args.ops.split(","):
+                continue
             jobs.append(
                 {
                     "name": f"op:{op}",
